@@ -5,6 +5,7 @@ import Oracle.Equal
 import Oracle.Prec
 import Oracle.Exhaust
 import Oracle.TypeExpr
+import Oracle.Literal
 open Oracle
 
 /-- a line is `(<stream> payload...)`; the answer is one S-expression -/
@@ -14,6 +15,7 @@ def handle (line : String) : String :=
     match stream with
     | "echo" => toString (Sx.list payload)
     | "slice.hist" => toString (Oracle.Slice.handle payload)
+    | "c11.scan" | "c11.interp" | "c11.unquote" | "c11.sprintf" | "c11.lit" => toString (Oracle.Literal.handle stream payload)
     | "c15.type" => toString (Oracle.TypeExpr.handle payload)
     | "c09.match" => toString (Oracle.Exhaust.handle payload)
     | "c08.chain" => toString (Oracle.Prec.handle payload)
